@@ -10,4 +10,4 @@ cd _build
 # dependency order from ocamldep
 ORDER=$(ocamlfind ocamldep -sort *.mli *.ml)
 ocamlfind ocamlopt -O2 -w -a -o modelrun $ORDER 2>/dev/null || ocamlfind ocamlopt -w -a -o modelrun $ORDER
-cp modelrun ../modelrun
+cp modelrun ../modelrun.new && mv -f ../modelrun.new ../modelrun
